@@ -332,14 +332,15 @@ fn c20_case<K: Kmer + Serialize + DeserializeOwned + Send + Sync>(c: &mut Case, 
 
 /// hand-built graphs with dangling extensions (bits that resolve to no node), self links, long nodes
 fn c20_synthetic(c: &mut Case) -> Result<(), String> {
-    type K = Kmer12;
-    let k = 12;
+    type K = Kmer20;
+    let k = 20;
     let stranded = c.rng.chance(1, 2);
     let mut b: BaseGraph<K, u32> = BaseGraph::new(stranded);
     let mut seen: BTreeSet<S> = BTreeSet::new();
     let nn = c.rng.below(6);
+    let want_long = c.idx % 500 == 7 && !c.lane_miri;
     for i in 0..nn {
-        let len = k + *c.rng.pick(&[0usize, 0, 1, 2, 7, 300]);
+        let len = k + if want_long && i == 0 { *c.rng.pick(&[65_530usize, 70_000, 131_100, 150_000]) } else { *c.rng.pick(&[0usize, 0, 1, 2, 7, 300]) };
         let s = c.rng.bases(len, 4);
         let ws: Vec<S> = s.windows(k).map(|w| canon_s(w, stranded)).collect();
         if ws.iter().any(|w| seen.contains(w)) || ws.iter().collect::<BTreeSet<_>>().len() != ws.len() {
@@ -354,6 +355,7 @@ fn c20_synthetic(c: &mut Case) -> Result<(), String> {
     let g = b.finish();
     let f = export_checks(c, &g, "hand-built graph with dangling extensions")?;
     c.count("synthetic_graphs", 1);
+    c.count("graphs_with_node_longer_than_65536", f.seqs.iter().any(|s| s.len() > 65_536) as u64);
     c.count("adjacencies", f.links.len() as u64);
     let dangling = (0..g.len()).any(|i| {
         let n = g.get_node(i);
@@ -394,6 +396,7 @@ pub fn run_c20(ctx: &Ctx) {
         ctx.require("empty_graphs", 5);
         ctx.require("single_node_graphs", 20);
         ctx.require("graphs_with_dangling_right_extensions", 50);
+        ctx.require("graphs_with_node_longer_than_65536", 10);
         ctx.require("graph_round_trips", 1000);
     }
 }
